@@ -11,7 +11,7 @@ ID = "C02"
 LEAN = True  # cases are distinct by construction; see engine.Acc
 RULE = (
     "L1: every value token sequence (13-token alphabet) up to the bound that the reference recogniser accepts as a Value, "
-    "in three contexts (middle field, last field, @string); L2: entries = heads x keys x field lists over an 18-value catalogue "
+    "in three contexts (middle field, last field, @string); L2: entries = heads x keys x field lists over a 20-value catalogue "
     "x comma forms x whitespace at every gap; L3: every document of <=3 catalogue blocks x gap texts; L4: every splitter-alphabet "
     "token sequence up to the bound accepted by the recogniser. Expected blocks are constructive (the generator knows what it "
     "wrote) and must agree with the recogniser. Non-trivial = accepted document with >=1 @-block (distinct by text)."
@@ -59,10 +59,12 @@ VALUES = [
     "{l1\nl2\n  l3}",  # multi-line
     '"p, q = r"',  # , = inside quotes
     '"a {b {c} "d, e" f} g"',  # quotes and a comma inside braces two deep inside quotes
+    '"x" # "a=b, c" # {d=e, f}',  # = and , inside later parts of a concatenation
+    "{a\rb\x0cc\u2028d\x0be\xa0}",  # characters str.splitlines / str.isspace treat specially, inside a value
 ]
-VALUES_SMALL = [VALUES[i] for i in (0, 2, 3, 8, 9, 15, 17)]
+VALUES_SMALL = [VALUES[i] for i in (0, 2, 3, 8, 9, 15, 17, 18, 19)]
 HEADS = [("article", ""), ("Article", ""), ("BOOK", " "), ("", ""), ("misc", "\t"), ("in_proc2", "  ")]
-KEYS = ["k", "Doe_2020:x/y", "", "a.b+c"]
+KEYS = ["k", "Doe_2020:x/y", "", "a.b+c", "bs\\ "]  # the last one: a key ending in a backslash (blank before the comma)
 FKEYS = ["title", "Author", "x-y", "f4"]
 WS_FORMS = ["", " ", "\n", "\r\n", " \n\t "]
 
@@ -87,7 +89,7 @@ def render_entry(head, key, fields, trailing, ws, gaps=None):
                 out += [","]
         out += [w(), "}"]
     text = "".join(out)
-    exp = ("entry", typ.lower(), key, tuple((fk, fv.strip()) for fk, fv in fields))
+    exp = ("entry", typ.lower(), key.strip(), tuple((fk, fv.strip()) for fk, fv in fields))
     return text, exp, next(g)
 
 
@@ -133,6 +135,9 @@ def _cat(n):
         (f"@a{n}{{x{n}, f = {{l1\nl2}}, g = v#\"w\",}}", ("entry", f"a{n}", f"x{n}", (("f", "{l1\nl2}"), ("g", 'v#"w"')))),
         # the same field names as elsewhere in the document, spelled in another case; a value equal to another entry's
         (f"@misc{{c{n}, Title = {{T{n}}}, YEAR = 19{n}0, NOTE = {{T{n}}}}}", ("entry", "misc", f"c{n}", (("Title", f"{{T{n}}}"), ("YEAR", f"19{n}0"), ("NOTE", f"{{T{n}}}")))),
+        # texts ending in a backslash (kept apart from the delimiter by a blank), line-boundary characters in a comment
+        (f"@comment{{tex {n}\\ }}", ("comment", f"tex {n}\\")),
+        (f"@comment{{l1\x0cl2\u2028l3\rl4 {n}}}", ("comment", f"l1\x0cl2\u2028l3\rl4 {n}")),
     ]
 
 
